@@ -204,10 +204,10 @@ impl<B: TextWriter> FiniteParser<B> {
     }
 
     pub fn end(self) -> Result<ParsedFinite<B>, ParseError> {
-        debug_assert!(
-            self.error.is_none(),
-            "attempt to complete a parser with an error context"
-        );
+        // If parsing already failed then the parser stays failed
+        if let Some(err) = self.error {
+            return Err(err);
+        }
 
         if !self.has_digits {
             return Err(ParseError::unexpected_end(if !self.has_sign {
@@ -224,6 +224,10 @@ impl<B: TextWriter> FiniteParser<B> {
         })
     }
 
+    pub(in crate::text) fn has_error(&self) -> bool {
+        self.error.is_some()
+    }
+
     pub fn context(&mut self, err: ParseError) -> fmt::Error {
         self.error = Some(err);
         fmt::Error
@@ -236,6 +240,10 @@ impl<B: TextWriter> FiniteParser<B> {
 
 impl<B: TextWriter> Write for FiniteParser<B> {
     fn write_str(&mut self, s: &str) -> fmt::Result {
+        if self.has_error() {
+            return Err(fmt::Error);
+        }
+
         self.parse_ascii(s.as_bytes())
             .map_err(|err| self.context(err))
     }
